@@ -602,8 +602,30 @@ tx_outs:\n{tx_outs}
         """Returns whether the input has a valid signature"""
         # get the relevant input
         tx_in = self.tx_ins[input_index]
+        script_sig = tx_in.script_sig
+        script_pubkey = tx_in.script_pubkey(self.network)
+        if script_pubkey.is_p2wpkh() or script_pubkey.is_p2wsh() or script_pubkey.is_p2tr():
+            # BIP141/BIP341: the ScriptSig of a native witness program is empty
+            if len(script_sig.commands) > 0:
+                print("ScriptSig of a witness program must be empty")
+                return False
+        elif script_pubkey.is_p2sh():
+            # BIP16: the ScriptSig is push only and ends with the RedeemScript
+            if (
+                len(script_sig.commands) == 0
+                or not script_sig.is_push_only()
+                or not isinstance(script_sig.commands[-1], bytes)
+            ):
+                print("ScriptSig of p2sh must be push only")
+                return False
+            redeem_script = RedeemScript.convert(script_sig.commands[-1])
+            # BIP141: for p2sh-p2wpkh/p2sh-p2wsh the ScriptSig is exactly
+            # the push of the RedeemScript
+            if redeem_script.is_witness_script() and len(script_sig.commands) != 1:
+                print("ScriptSig of p2sh-wrapped witness program has extra items")
+                return False
         # combine the scripts
-        combined_script = tx_in.script_sig + tx_in.script_pubkey(self.network)
+        combined_script = script_sig + script_pubkey
         # evaluate the combined script
         return combined_script.evaluate(self, input_index)
 
